@@ -8,7 +8,6 @@ use paseto_core::{EncryptedToken, SignedToken};
 use serde_json::json;
 
 use crate::backend::*;
-use crate::for_backends;
 use crate::util::*;
 use crate::wraps::*;
 
